@@ -325,3 +325,10 @@ Qed.
 
 Lemma PoolInv_nodup p live : PoolInv p live -> NoDup live.
 Proof. intros [W [N _]]. eapply NoDup_app_left; eauto. Qed.
+
+Lemma pool_reachable_inv esz zp ops : 0 < esz -> plegal_run (pstate_new esz zp) ops ->
+  PInv (fst (prun_from (pstate_new esz zp) ops)).
+Proof.
+  intros He L. assert (I0 : PInv (pstate_new esz zp)) by (apply mempool_new_inv; auto).
+  apply (prun_inv ops _ I0 L).
+Qed.
